@@ -533,14 +533,21 @@ def measure_families(rep: C.Report) -> None:
     def one(fam: t.Any) -> t.Tuple[t.List[int], bool]:
         name, kind, growth, gen, params = fam
         spec = [(kind, gen(prm)) for prm in params]
-        pr = subprocess.Popen([sys.executable, "-c", COUNT, src], stdin=subprocess.PIPE, stdout=subprocess.PIPE, stderr=subprocess.PIPE)
+        # the budget is 40 s of CPU time of the measuring process (RLIMIT_CPU), not wall time: a loaded machine must not
+        # turn into a verdict; the wall limit only guards the harness
+        def limit() -> None:
+            import resource
+
+            resource.setrlimit(resource.RLIMIT_CPU, (40, 45))
+
+        pr = subprocess.Popen([sys.executable, "-c", COUNT, src], stdin=subprocess.PIPE, stdout=subprocess.PIPE, stderr=subprocess.PIPE, preexec_fn=limit)
         try:
-            out, err = pr.communicate(json.dumps(spec).encode(), timeout=40)
-            timed_out = False
-        except subprocess.TimeoutExpired:
+            out, err = pr.communicate(json.dumps(spec).encode(), timeout=900)
+        except subprocess.TimeoutExpired as ex:
             pr.kill()
-            out, err = pr.communicate()
-            timed_out = True
+            pr.communicate()
+            raise C.MachineryError(f"cost measurement of '{name}' used less than 40 s of CPU in 900 s of wall time: the machine is overloaded") from ex
+        timed_out = pr.returncode in (-24, -9)  # SIGXCPU (soft limit) / SIGKILL (hard limit)
         vals = [int(x) for x in out.decode().split()]
         if not timed_out and len(vals) != len(params):
             raise C.MachineryError(f"cost measurement of '{name}' failed: " + err.decode()[-300:])
@@ -557,7 +564,7 @@ def measure_families(rep: C.Report) -> None:
             counts.append(v)
         if timed_out:
             prm = params[len(vals)] if len(vals) < len(params) else params[-1]
-            rep.violation(f"scanner-cost/did-not-finish/{name}", f"'{name}' at parameter {prm} ({len(gen(prm))} characters) did not finish within 40 s (smaller inputs: {list(zip(params, vals))})",
+            rep.violation(f"scanner-cost/did-not-finish/{name}", f"'{name}' at parameter {prm} ({len(gen(prm))} characters) did not finish within 40 s of CPU time (smaller inputs: {list(zip(params, vals))})",
                           {"family": name, "parameter": prm, "input": gen(prm)[:400]})
     by: t.Dict[str, t.List[t.Tuple[int, int]]] = {}
     for (name, prm), c in zip(index, counts):
